@@ -2016,7 +2016,10 @@ PROP = Property(
               "C14.reorder_is_permutation", "C14.remove_order_invariant", "C14.reorder_preserves_values",
               "C14.update_id_preserves_order", "C14.update_id_preserves_values",
               "C14.refusal_exact", "C14.refused_changes_nothing", "C14.call_refines_spec",
-              "C14.update_id_breaks_dependents", "C14.parse_print"],
+              "C14.update_id_breaks_dependents", "C14.parse_print",
+              "C14.build_no_aliasing", "C14.heap_remove_closure", "C14.heap_getitem_elementwise",
+              "C14.heap_update_id_preserves", "C14.heap_update_visits_once", "C14.heap_calls_keep_invariant",
+              "C14.shared_list_breaks_remove"],
     families=[GramFam(), Bcl(), ExprFam(), ArithFam(), ULink(), ParsedFam(), HistFam(), ObjFam()],
     trusted_base=[
         "numpy ufuncs are pure elementwise functions of (dtype, bit pattern) independent of array layout (`**` is only generated on operands whose result is exact, because numpy's SIMD and scalar pow differ in the last bit otherwise); numpy basic indexing, broadcast_to/broadcast_arrays striding (L0 model in Model/Derived.lean, the zero-stride pattern of results is compared in the bcl family)",
